@@ -291,6 +291,9 @@ class State:
         self.parts = {}  # slot -> (part object, kind, {kw: model term})
         self.expect_err = {}  # slot -> expected exception name or None
         self.model_obj = Model(world_term["docs"])
+        self.docs = []  # the built probe documents (never the term itself)
+        self.unspecified = set()  # Key-with-Index combinations: outside the statement
+        self.parts_built = 0
 
 
 def part_models(kind, kw):
@@ -375,42 +378,45 @@ def expected_build_error(pending):
     return "key" in ks and "index" in ks
 
 
+def mixes_key_and_index(m):
+    ks = kinds_of(simplify(m))
+    return "key" in ks and "index" in ks
+
+
 def on_boundary(eng, c, k, op, out):
     world = eng.world
     st = world.state
     mo = st.model_obj
-    docs = world.term["docs"]
+    docs = st.docs
     vio = []
     if out == ("skipped",):
         return vio
     slot = op[1]
     pending = getattr(st, "pending", None)
-    if out[0] == "raise":
-        exc = out[1]
-        may_refuse = expected_build_error(pending)
-        if exc == "TypeError" and may_refuse:
-            pass  # documented refusal
-        else:
-            m = pending[1]
-            shape = ("part:" + m[1]) if m[0] == "part" else op[0]
-            vio.append(
-                dict(
-                    oracle="internal_error_on_build",
-                    locus=f"{shape}->{exc}",
-                    detail={"op": op, "model": pending[1], "exception": exc},
-                )
+    m = pending[1]
+    if m[0] == "part":
+        # Container parts are only *users* of pool entries here: what a part
+        # selects is path semantics (C03, not claimed).  Whether the construction
+        # is accepted or refused, the operands must come out of it unaltered -
+        # that is checked below for every pool entry.
+        st.parts_built += 1 if out[0] == "ok" else 0
+    elif mixes_key_and_index(m):
+        # Key together with Index is outside the statement ("value-kind mixed
+        # with key-kind or with index-kind"): refusing it or accepting it are
+        # both fine, and nothing is demanded of such an entry.
+        st.unspecified.add(slot)
+        st.pool.pop(slot, None)
+        st.model.pop(slot, None)
+    elif out[0] == "raise":
+        vio.append(
+            dict(
+                oracle="internal_error_on_build",
+                locus=f"{op[0]}->{out[1]}",
+                detail={"op": op, "model": m, "exception": out[1]},
             )
-    elif op[0] in ("combine", "spec_fold"):
-        if expected_build_error(pending):
-            vio.append(
-                dict(
-                    oracle="mixed_key_index_accepted",
-                    locus=op[0],
-                    detail={"op": op, "model": pending[1]},
-                )
-            )
+        )
+    else:
         eng.monitor.register(f"pool[{slot}]", st.pool[slot])
-        eng.stats_new_entries = getattr(eng, "stats_new_entries", 0) + 1
 
     # every pool entry (new and old) must filter every probe as its model says
     for s in sorted(st.pool):
@@ -449,32 +455,6 @@ def on_boundary(eng, c, k, op, out):
                     )
                 )
                 return vio
-    # parts: filtering a container = and-combination of the given conditions
-    for s in sorted(st.parts):
-        obj, pkind, kwm = st.parts[s]
-        pm = part_models(pkind, kwm)
-        for di, d in enumerate(docs):
-            m = pm["list" if isinstance(d, list) else "map"]
-            if m is None:
-                continue
-            exp = mo.expect(m, di)
-            if exp is UNDEF:
-                mo.skipped_pairs += 1
-                continue
-            mo.checked_pairs += 1
-            try:
-                got = list(obj.filter(d).result)
-            except Exception as e:
-                got = ("raise", type(e).__name__)
-            if got != exp:
-                vio.append(
-                    dict(
-                        oracle="part_combination_mismatch",
-                        locus=f"{pkind}:{'raise:' + got[1] if isinstance(got, tuple) else 'result'}",
-                        detail={"slot": s, "kind": pkind, "kw": kwm, "doc": di, "expected": exp, "got": got},
-                    )
-                )
-                return vio
     return vio
 
 
@@ -483,14 +463,12 @@ def run(case):
     world.state = State(case["world"])
     st = world.state
     mon = Monitor()
-    docs = [world.get("docs", i) for i in range(len(case["world"]["docs"]))]
+    st.docs = [world.get("docs", i) for i in range(len(case["world"]["docs"]))]
     for i, t in enumerate(case["world"]["conds"]):
         obj = world.get("conds", i)
         st.pool[i] = obj
         st.model[i] = t
         mon.register(f"pool[{i}]", obj)
-    for i, d in enumerate(docs):
-        mon.register(f"docs[{i}]", d)
     eng = Engine(
         world,
         case["programs"],
@@ -514,6 +492,8 @@ def run(case):
         "probe_pairs_checked": st.model_obj.checked_pairs,
         "probe_pairs_skipped_undefined": st.model_obj.skipped_pairs,
         "ops_by_kind": _by_kind(case),
+        "key_with_index_combinations_outside_the_statement": len(st.unspecified),
+        "parts_built_from_pool_entries": st.parts_built,
         "null_next_to_same_op_combination": _count_null_same_op(case, st),
         "operands_reused_after_use": reused,
         "set:histories": {digest((case["world"], case["programs"], case["decisions"]))},
